@@ -70,6 +70,7 @@ def stepLine (st : Top) : List String → Top × String
     | some s => ({ st with d := { st.d with sched := s }, toks := toks }, "ok")
     | none => (st, "bad-op")
   | ["spurious", _, _] => (st, "ok")
+  | ["spurious", _, _, _] => (st, "ok")
   | ["run"] => (st, "\n".intercalate (runConf st.d st.toks))
   | _ => (st, "bad-op")
 
